@@ -242,7 +242,7 @@ __CPROVER_requires(TVEC_OK(in) && CTX_OK(out))
 /* type invariant of a packet context: a non-zero length field owns a heap buffer of that length */
 __CPROVER_requires(CTX_BUFS_FRESH(out))
 /* invariant of the library's allocation guard: the running total never exceeds its limit */
-__CPROVER_requires(tmcg_openpgp_mem_alloc <= MAXALLOC)
+__CPROVER_requires(tmcg_openpgp_mem_alloc <= MAXALLOC && out->embeddedsignaturelen + out->attestedcertificationslen <= tmcg_openpgp_mem_alloc)   /* the total accounts for the buffers the context owns */
 __CPROVER_assigns(*out, in->size, tmcg_openpgp_mem_alloc, vec_u8__cell)
 __CPROVER_frees(out->embeddedsignaturelen > 0: out->embeddedsignature; out->attestedcertificationslen > 0: out->attestedcertifications)
 __CPROVER_ensures(in->size <= __CPROVER_old(in->size))
@@ -490,7 +490,7 @@ __CPROVER_decreases(in->size + (partlen ? 1 : 0))
 /* BOUNDED (one subpacket per area: outer loop unwound before instrumentation; inner copy loops closed by
  * invariants).  C12: a subpacket area is parsed or refused; every copy out of the context stays inside the counted
  * arrays / the embedded-signature buffer; a non-zero verdict is given only after the whole area was consumed. */
-__CPROVER_requires(__CPROVER_is_fresh(in, sizeof(*in)) && in->cap == TCAP && in->size <= 2 && CTX_OK(out) && CTX_BUFS_FRESH(out) && tmcg_openpgp_mem_alloc <= MAXALLOC && CNT_OK(notations) && CNT_OK(embeddedsigs) && CNT_OK(recipientfprs))
+__CPROVER_requires(__CPROVER_is_fresh(in, sizeof(*in)) && in->cap == TCAP && in->size <= 2 && CTX_OK(out) && CTX_BUFS_FRESH(out) && tmcg_openpgp_mem_alloc <= MAXALLOC && out->embeddedsignaturelen + out->attestedcertificationslen <= tmcg_openpgp_mem_alloc && CNT_OK(notations) && CNT_OK(embeddedsigs) && CNT_OK(recipientfprs))
 __CPROVER_assigns(*out, in->size, tmcg_openpgp_mem_alloc, vec_u8__cell, notations->size, embeddedsigs->size, recipientfprs->size)
 __CPROVER_ensures(in->size <= __CPROVER_old(in->size))
 __CPROVER_ensures(__CPROVER_return_value != 0 ==> in->size == 0)
